@@ -18,13 +18,14 @@ from . import groups
 
 class Rig:
     def __init__(self, loop, case, kind="slow", al_delay=None, latency=None,
-                 fault=None, on_frame=None, on_response=None, table=None):
+                 fault=None, on_frame=None, on_response=None, table=None,
+                 fmmus=4):
         self.loop = loop
         self.kind = kind
         self.case = case
         self.models = []
         for i, spec in enumerate(case["terminals"]):
-            m = simbus.TerminalModel(station=spec["position"], fmmus=4)
+            m = simbus.TerminalModel(station=spec["position"], fmmus=fmmus)
             if al_delay is not None:
                 m.al_delay = al_delay
             self.models.append(m)
@@ -40,7 +41,7 @@ class Rig:
         ec, terms, devs, sg = groups.build_group(case, kind, ec=self.ec)
         self.terms, self.devs, self.sg = terms, devs, sg
         for t in terms:
-            t.fmmu_used = [None] * 4
+            t.fmmu_used = [None] * fmmus
         self.registered = []
         self.unregistered = []
         if kind == "fast" and table is not None:
